@@ -596,3 +596,18 @@ Theorem C13_duplicate_text_example : forall (tab_at : HashModel.nametab) (float_
       ser_heap Tiny13.tiny Tiny13.el tab_at Tiny13.el float_fmt fuel ex_w' (Some nf) (w_next ex_w) indent inline.
 Proof. exact duplicate_text_example. Qed.
 
+(* VERSION FILTER INSIDE ONE MODEL: C13_copy_filtered holds for every copy call — the filter version is min_version of
+   the DESTINATION, also when source and destination belong to the same model (round-8 seed).  An instance on the tiny
+   tables: one model, file "f" of version 2 and file "g" of version 1, package "p" only in "f", package "q" only in
+   "g"; the copy of p's ELEMENTS (HOLDER + NEW-THING, the latter permitted in version 2 only) into "q" is made in
+   version 1 (the destination's), not 2 (the source's): it keeps the HOLDER and omits the NEW-THING *)
+Theorem C13_copy_same_model_other_version_example :
+  Inv.run_ops Tiny13.tiny Tiny13.el Tiny13.el Tiny13.check_fn Tiny13.LATEST [] mv_script Inv.empty_world = Val mv_w /\
+  model_of 11 mv_w = Val (OK 0, mv_w) /\ model_of 4 mv_w = Val (OK 0, mv_w) /\
+  min_version Tiny13.LATEST 11 mv_w = Val (OK 1, mv_w) /\ min_version Tiny13.LATEST 4 mv_w = Val (OK 2, mv_w) /\
+  Tiny13.run (OpCopy 11 4) mv_w = Val (OK (VElem 13), mv_w') /\
+  Tiny13.node_content mv_w 4 = [CElem 5; CElem 9] /\
+  option_map n_name (w_nodes mv_w 5) = Some Tiny13.nHOLDER /\ option_map n_name (w_nodes mv_w 9) = Some Tiny13.nNEW /\
+  Tiny13.node_content mv_w' 13 = [CElem 14] /\ option_map n_name (w_nodes mv_w' 14) = Some Tiny13.nHOLDER.
+Proof. exact copy_same_model_other_version_example. Qed.
+
